@@ -1523,6 +1523,25 @@ func (s *compoundState) opOpen(ctx context.Context, args *nfsv4.Open4args) nfsv4
 	if st != nfsv4.NFS4_OK {
 		if r, ok := lastResponse.(nfsv4.Open4res); ok {
 			// Last call was also an OPEN. Return cached response.
+			//
+			// A successful OPEN changes the current file
+			// handle to that of the opened file. Do the same
+			// when replaying, so that operations following
+			// OPEN in the same compound (e.g., GETFH, GETATTR)
+			// yield the same results as they did originally.
+			// The file cannot have been closed in the
+			// meantime, as that would have replaced the
+			// cached response.
+			if okResponse, ok := r.(*nfsv4.Open4res_NFS4_OK); ok {
+				if openStateID, st := p.internalizeRegularStateID(&okResponse.Resok4.Stateid); st == nfsv4.NFS4_OK {
+					if oofs, ok := p.openOwnerFilesByOther[openStateID.other]; ok {
+						s.currentFileHandle = nfs40FileHandle{
+							handle: oofs.openedFile.GetHandle(),
+							node:   virtual.DirectoryChild{}.FromLeaf(oofs.openedFile.GetLeaf()),
+						}
+					}
+				}
+			}
 			return r
 		}
 		return &nfsv4.Open4res_default{Status: st}
